@@ -45,6 +45,7 @@ type Case struct {
 	Warmup     bool       `json:"warmup"` // serve one request alone to completion before the interleaving
 	Yields     bool       `json:"yields"` // park requests at the verif yield point inside the $_GET lazy fill too
 	Quiet      bool       `json:"quiet"`  // the handler writes no body: its fields go into the X-Out header and its status stays pending, so that what a middleware does to $w AFTER $next (header X-MwA<j> from a local, then the body marker) still reaches the client
+	Cap        bool       `json:"cap"`    // route "mux": the route handler IS a closure that captured an array, a map and a counter by value with use (...) at registration and mutates them in place (read kinds cap_*)
 	Gen        string     `json:"gen"`    // generator family (after 3 deadlocked cases of one family the rest of that family is skipped)
 	StepMs     int        `json:"step_ms"` // watchdog: a released request must reach its next gate / finish within this time (default 2000)
 }
@@ -79,13 +80,32 @@ var readExpr = map[string]string{
 	"loop":      `$acc`,
 	"ob_open":   `c11_ob_open($id)`,    // ob_start(); echo $id;  — the output buffer stack is process-wide
 	"ob_close":  `ob_get_clean()`,
+	// state captured BY VALUE by the handler closure at registration: every request must see it as it was then.
+	// The read yields the request's id when the captured variable is exactly "registration state + this request's own
+	// mutations so far", something that is no id otherwise
+	"cap_arr": `((count($carr) == 1 + $capn && $carr[$capn] == $id) ? $id : "n" . count($carr))`,
+	"cap_set": `$cmap["k"]`,
+	"cap_get": `$cmap["k"]`,
+	"cap_cnt": `($ccnt == $capc ? $id : "c" . $ccnt)`,
 }
 
-func script(segs [][]string, gates bool, quiet bool) string {
+// statements run just before a read: the in-place mutation of the captured variable
+var readPre = map[string]string{
+	"cap_arr": `$carr[] = $id; $capn = $capn + 1;`,
+	"cap_set": `$cmap["k"] = $id;`,
+	"cap_cnt": `$ccnt = $ccnt + 1; $capc = $capc + 1;`,
+}
+
+func script(segs [][]string, gates bool, quiet bool, capt bool) string {
 	var sb strings.Builder
 	sb.WriteString("class C11Box { public $v; function __construct($v) { $this->v = $v; } }\n")
 	sb.WriteString("function c11_ob_open($id) { ob_start(); echo $id; return $id; }\n")
-	sb.WriteString("function h($r, $w) {\n")
+	if capt {
+		sb.WriteString("$carr = [0]; $cmap = [\"k\" => \"0\"]; $ccnt = 0;\n")
+		sb.WriteString("$hcap = function($r, $w) use ($carr, $cmap, $ccnt) {\n  $capn = 0; $capc = 0;\n")
+	} else {
+		sb.WriteString("function h($r, $w) {\n")
+	}
 	sb.WriteString("  $id = $r->input(\"id\");\n  $n = (int)$id;\n  $local = $id;\n  $arr = [0, $id];\n  $obj = new C11Box($id);\n")
 	sb.WriteString("  $f = function() use ($id) { return $id; };\n")
 	sb.WriteString("  $acc = \"\"; $i = 0; while ($i < 3) { $acc = $id; $i = $i + 1; }\n")
@@ -95,13 +115,21 @@ func script(segs [][]string, gates bool, quiet bool) string {
 			fmt.Fprintf(&sb, "  verif_gate($n, %d);\n", k+1)
 		}
 		for j, rd := range seg {
+			if pre, ok := readPre[rd]; ok {
+				fmt.Fprintf(&sb, "  %s\n", pre)
+			}
 			fmt.Fprintf(&sb, "  $out = $out . \"s%dr%d=\" . %s . \";\";\n", k, j, readExpr[rd])
 		}
 	}
 	if quiet {
-		sb.WriteString("  $w->header(\"X-Id\", $id);\n  $w->status(200 + $n);\n  $w->header(\"X-Out\", $out);\n}\n")
+		sb.WriteString("  $w->header(\"X-Id\", $id);\n  $w->status(200 + $n);\n  $w->header(\"X-Out\", $out);\n}")
 	} else {
-		sb.WriteString("  $w->header(\"X-Id\", $id);\n  $w->status(200 + $n);\n  $w->write($out);\n}\n")
+		sb.WriteString("  $w->header(\"X-Id\", $id);\n  $w->status(200 + $n);\n  $w->write($out);\n}")
+	}
+	if capt {
+		sb.WriteString(";\n")
+	} else {
+		sb.WriteString("\n")
 	}
 	return sb.String()
 }
@@ -175,7 +203,7 @@ func mkHandler(c *Case, withGates bool, gs map[int]*gateState) (http.Handler, st
 	if ctl := vm.RegisterFunction("verif_gate", gateFnFor(gs)); ctl != nil {
 		return nil, "register: " + ctl.AsString()
 	}
-	src := script(c.Segs, withGates, c.Quiet)
+	src := script(c.Segs, withGates, c.Quiet, c.Cap && c.Route == "mux")
 	if c.Route == "mux" {
 		src += "$server = new Net\\Http\\Server(\"127.0.0.1\", 0);\n$rt = $server;\n"
 		if c.Group {
@@ -197,7 +225,11 @@ func mkHandler(c *Case, withGates bool, gs map[int]*gateState) (http.Handler, st
 			}
 			src += fmt.Sprintf("$rt->middleware(function($r, $w, $next) { $mid = $r->input(\"id\"); $w->header(\"X-Mw%d\", $mid); $next($r, $w); %s });\n", j, after(j))
 		}
-		src += "$rt->post(\"/h\", function($r, $w) { h($r, $w); });\n"
+		if c.Cap {
+			src += "$rt->post(\"/h\", $hcap);\n"
+		} else {
+			src += "$rt->post(\"/h\", function($r, $w) { h($r, $w); });\n"
+		}
 	}
 	prog, acl := p.ParseString(src, "c11.zy")
 	if acl != nil {
